@@ -53,7 +53,7 @@ Definition expected : table :=
         Pure;
         If CErr
           [ ReturnErr ] [];
-        If (CAnd (CAnd (CNot (CFlag "ClientOnly")) CData) CData)
+        If (CAnd (CAnd (CNot (CFlag "ClientOnly")) (CNot (CAnd (CFlag "IsUpgrade") (CFlag "DryRun")))) CData)
           [ If (CFlag "TakeOwnership")
               [ Call (KcExisting true) ]
               [ Call (KcExisting false) ];
